@@ -30,8 +30,16 @@ any rank's stderr) the per-rank comparison is skipped and the evidence says so (
 Known finding D8 is decided by behaviour: a wrong answer is a KNOWN-FINDING only if D8 is listed with status "known",
 the entry point is mcb_sva_signed_mpi, P >= 2, the ranks' EORD differ AND the as-found model predicts the implementation's
 answer exactly.  Anything else is a VIOLATION.  With the fix applied the implementation equals the fixed model and the
-check is silent."""
-import json, os, subprocess, shutil, threading, concurrent.futures as cf
+check is silent.
+Boundary configurations: all five entry points are also instantiated with `long long` weights (kind token L) on 64-bit integers ABOVE 2^53 (props/c12.py weigh64:
+sums that are not doubles, distinct weights that collide as doubles, (m+4)*sum(w) < 2^63): rank 0's answer judged and compared with the models (which compute over Z
+and never see the weight type), and the per-rank hook lines — the hook prints weights through operator<<, i.e. a long long as its exact decimal integer — parsed with
+Python integers only (exact_int: no float on the integral path).  Sizes beyond narrow index types (own MPI jobs, P in {2, 3}): graphs with 257..400 vertices
+(signed variant through the exact model comparison; FVS tree variants with several hundred candidates to scatter), K45 + pendants on 320 vertices (witnesses with
+>= n signed edges: the all-vertices branch and its vertex slices over more than 255 vertices) and stars with 66009 vertices whose hub and cycle-carrying leaves have
+indices >= 65536 and < 256 (signed, fvs_trees[_tbb]; harness kind G = no ROOTS / EORD oracles) — the latter two judged against the property text only, through the
+2-core of the graph (props/c03.py two_core)."""
+import json, os, subprocess, shutil, threading, random, concurrent.futures as cf
 import lib, gen, mcb_oracle as O, exact_common as X
 
 PID = "C04"
@@ -45,6 +53,22 @@ ENTRY = {"signed": "mcb_sva_signed_mpi", "fvs": "mcb_sva_fvs_trees_mpi", "fvs_tb
          "iso": "mcb_sva_iso_trees_mpi", "iso_tbb": "mcb_sva_iso_trees_tbb_mpi"}
 KEYS = ["ROOTS", "EORD", "RET", "N", "CYC", "RANK", "REDTREE"]
 D8_GRAPH = "4 5 0 1 1 0 2 1 0 3 3 1 3 4 2 3 1"
+from props.c03 import CORE_N, BIG_N, reduce_to_core      # graphs with more than CORE_N vertices are judged through their 2-core; more than BIG_N: judged only
+
+
+def per_rank_feasible(alg, g, tier):
+    """the per-rank model (treesmpi) is list-based: small graphs, plus the FVS variants on graphs with up to 400 vertices and cycle space dimension <= 12
+    (a handful of trees and candidates; a few seconds each)"""
+    n, es = g
+    maxn, maxm = (16, 48) if tier == "quick" else (24, 90)
+    if n <= maxn and len(es) <= maxm: return True
+    return alg.startswith("fvs") and n <= 400 and len(es) - n + O.components(n, es) <= 12
+
+
+def model_feasible(line, g):
+    """the list-based extracted models are run up to a few hundred vertices when the cycle space is small; beyond that rank 0's answer is judged only"""
+    n, es = g
+    return not line.startswith("G ") and n <= BIG_N and (n <= CORE_N or len(es) - n + O.components(n, es) <= 60)
 
 
 # --------------------------------------------------------------------------------------------------------------
@@ -194,8 +218,18 @@ def model_lines(graph_tokens, rank_fields, P):
 TREES_CORR = "correspondence c04/treesmpi: MpiTreesModel (mt_local_Z, mt_sort_Z, mt_rank_lookup_seq_Z, mt_rank_accept_tbb_Z, mt_trace_run_Z) vs the per-rank hook lines of mpi/parmcb_sva_trees.hpp"
 
 
-def exact_int(tok, scale):
-    """a weight printed by the hook (double: integer * 2^scale; int: itself) -> the integer the model works with, None if not exact"""
+def toks(line):
+    """tokens of a case line `[G] alg ty scale pseed graph` without the leading G (harness kind: no oracles)"""
+    t = line.split()
+    return t[1:] if t and t[0] == "G" else t
+
+
+def exact_int(tok, scale, integral=False):
+    """a weight printed by the hook -> the integer the model works with, None if not exact.  integral (int / long long weights): the hook printed the integer
+    itself, read here as a Python integer — a 64-bit weight above 2^53 must not pass through float.  double: integer * 2^scale"""
+    if integral:
+        import re
+        return int(tok) if re.fullmatch(r"-?[0-9]+", tok) else None
     try:
         v = float(tok) * (2.0 ** (-scale))
     except ValueError:
@@ -203,7 +237,7 @@ def exact_int(tok, scale):
     return int(v) if v == int(v) and abs(v) < 2 ** 53 else None
 
 
-def parse_hook(lines, scale):
+def parse_hook(lines, scale, integral=False):
     """hook lines of ONE rank for ONE case -> {"chunk": [(v,e)], "sorted": [(tree, root, eidx, w)], "local": {k: (exists, w, idx tuple)}} | None"""
     d = {"chunk": None, "sorted": None, "local": {}, "bad": None}
     try:
@@ -217,7 +251,7 @@ def parse_hook(lines, scale):
                 n = int(t[3]); ent = []
                 if len(t) != 4 + 4 * n: d["bad"] = "malformed SORTED line"
                 for i in range(n):
-                    w = exact_int(t[7 + 4 * i], scale)
+                    w = exact_int(t[7 + 4 * i], scale, integral)
                     if w is None: d["bad"] = "recorded weight %s is not an exact multiple of the weight unit" % t[7 + 4 * i]
                     ent.append((int(t[4 + 4 * i]), int(t[5 + 4 * i]), int(t[6 + 4 * i]), w))
                 d["sorted"] = ent
@@ -225,7 +259,7 @@ def parse_hook(lines, scale):
                 k = int(t[3]); ex = int(t[4]); n = int(t[6])
                 if len(t) != 7 + n: d["bad"] = "malformed LOCAL line"
                 if ex:
-                    w = exact_int(t[5], scale)
+                    w = exact_int(t[5], scale, integral)
                     if w is None: d["bad"] = "local minimum weight %s is not an exact multiple of the weight unit" % t[5]
                     d["local"][k] = (1, w, tuple(sorted(int(x) for x in t[7:7 + n])))
                 else:
@@ -385,6 +419,48 @@ def gen_cases(rng, tier):
     return cases
 
 
+def gen_cases64(rng, tier):
+    """the five entry points instantiated with long long weights above 2^53 (own generator stream)"""
+    graphs = []
+    for i in range(56 if tier == "quick" else 200):
+        g, style = X.gen_graph64(rng, 12 if tier == "quick" else 20)
+        graphs.append((g, "64:" + style))
+    cases = []
+    for gi, (g, style) in enumerate(graphs):
+        gt = gen.graph_tokens(g)
+        for alg in ALGS:
+            cases.append(("%s L 0 %d %s" % (alg, 0 if rng.random() < 0.15 else 100000 + 5 * gi + ALGS.index(alg), gt), g, style))
+    rng.shuffle(cases)
+    return cases
+
+
+def size_cases(rng, tier, P):
+    """cases beyond narrow index types, run in MPI jobs of their own (P in {2, 3}); see props/c03.py for the families.  No isometric variant on the large ones."""
+    from props import c03
+    cases = []
+    def add(alg, ty, g, style, ps=None):
+        kind = "G " if g[0] > c03.BIG_N else ""
+        cases.append(("%s%s %s 0 %d %s" % (kind, alg, ty, rng.randint(1, 10 ** 6) if ps is None else ps, gen.graph_tokens(g)), g, style))
+    for i in range(4 if tier == "quick" else 12):            # 257..400 vertices, small cycle space: exact model comparison of the signed variant
+        w64 = i % 2 == 0
+        g = c03.mid_sparse(rng, w64)
+        ty = "L" if w64 else "I" if gen.int_domain_ok(g) and i % 4 == 1 else "D"
+        add("signed", ty, g, "mid-sparse")
+        add(("fvs", "fvs_tbb", "iso", "iso_tbb")[i % 4], ty, g, "mid-sparse")
+    for i in range(2 if tier == "quick" else 4):             # more than 255 candidate cycles PER RANK to scatter: FVS trees of a graph with 300 vertices and dimension 60..80
+        g = gen.random_connected_sparse(rng, rng.randint(280, 330), rng.randint(60, 80))
+        g = c03.weigh64(rng, g)[0] if i % 2 else gen.weigh(rng, g, "ties")[0]
+        add("fvs" if (i + P) % 2 else "fvs_tbb", "L" if i % 2 else "D", g, "mid-fvs")
+    g = c03.clique_pendants(rng, 45, 320, rng.choice(["ties", "unit"]), w64=(P == 3))            # the all-vertices branch over 320 vertices (the clique sits at the indices 275..319)
+    add("signed", "L" if P == 3 else "D", g, "clique+pendants")
+    for i, variant in enumerate(("tri", "rim", "dense")):
+        g, _ = c03.big_star(rng, variant)
+        ty = "L" if (i + P) % 2 else "D"
+        add("signed", ty, g, "star-" + variant)
+        if variant != "tri" or tier != "quick": add("fvs" if (i + P) % 2 else "fvs_tbb", ty, g, "star-" + variant)
+    return cases
+
+
 # --------------------------------------------------------------------------------------------------------------
 # judging
 # --------------------------------------------------------------------------------------------------------------
@@ -410,7 +486,6 @@ class Judge:
     def per_rank(self, P, lines, parsed, traces, tier, replay_of):
         """the four tree variants: every rank's chunk, rebuilt candidates, sort order and per-phase local minimum vs the model"""
         import trees_common
-        maxn, maxm = (16, 48) if tier == "quick" else (24, 90)
         todo = []
         for i, (alg, g, res, rf, why, differ) in sorted(parsed.items()):
             if alg == "signed": continue
@@ -418,7 +493,7 @@ class Judge:
             if not tr or not any(tr):
                 with self.lock: self.stats["per_rank_skipped_no_hook"] += 1
                 continue
-            if g[0] > maxn or len(g[1]) > maxm:
+            if not per_rank_feasible(alg, g, tier):
                 with self.lock: self.stats["per_rank_skipped_size"] += 1
                 continue
             todo.append(i)
@@ -431,9 +506,9 @@ class Judge:
         ml, meta = [], []
         for i in todo:
             alg, g, res, rf, why, differ = parsed[i]
-            t = lines[i].split(); scale = int(t[2]) if t[1] == "D" else 0
+            t = toks(lines[i]); scale = int(t[2]) if t[1] == "D" else 0
             gt = gen.graph_tokens(g)
-            hooks = [parse_hook(tr_r, scale) for tr_r in traces[i]]
+            hooks = [parse_hook(tr_r, scale, integral=(t[1] != "D")) for tr_r in traces[i]]
             bad = next(("rank %d: %s" % (r, h["bad"]) for r, h in enumerate(hooks) if h["bad"]), None)
             if not bad:
                 bad = next(("rank %d wrote no %s line" % (r, k.upper()) for r, h in enumerate(hooks) for k in ("chunk", "sorted") if h[k] is None), None)
@@ -482,9 +557,10 @@ class Judge:
                     self.report("hang", "P=%d: the MPI job did not end cleanly after its last case (%s): %s" % (P, res[0], res[2][-200:]), replay_of(i - 1, {"stderr": res[2]}))
                 continue
             line, g, style = cases[i]
-            t = line.split(); alg = t[0]; n, es = g
+            t = toks(line); alg = t[0]; n, es = g
             m = len(es); N = m - n + O.components(n, es)
-            c.count("P=%d %s" % (P, line), N >= 2, bucket="P=%d %s N%s" % (P, alg, "0" if N == 0 else "1" if N == 1 else "2-5" if N <= 5 else ">5"))
+            c.count("P=%d %s" % (P, line), N >= 2, bucket="P=%d %s%s N%s%s" % (P, alg, " L" if t[1] == "L" else "", "0" if N == 0 else "1" if N == 1 else "2-5" if N <= 5 else ">5",
+                                                                             "" if n <= 255 else " n>255" if n <= 65535 else " n>65535"))
             if isinstance(res, tuple):
                 kind, partial, se = res
                 if kind == "SKIPPED":
@@ -514,16 +590,24 @@ class Judge:
                 ret, cycles = O.parse_alg_output(res[0])
             except Exception:
                 self.report("crash", "%s with %d ranks: unparsable answer on rank 0: %s" % (ENTRY[alg], P, res[0][:200]), replay_of(i, {"rank_lines": res})); continue
-            key = gen.graph_tokens(g)
+            jn, jes, jcycles, why = n, es, cycles, None
+            if n > CORE_N:                               # large graphs: judged on the 2-core (same cycle space; the oracle builds a tree per vertex)
+                with self.lock: red = reduce_to_core(n, es, cycles)
+                if isinstance(red, str): why = red
+                else: jn, jes, jcycles = red
+            key = gen.graph_tokens((jn, jes))
             with self.lock:
-                if key not in self.opts: self.opts[key] = O.mcb(n, es)
-            why = O.judge_basis(n, es, cycles)
+                if key not in self.opts and not why: self.opts[key] = O.mcb(jn, jes)
+            why = why or O.judge_basis(jn, jes, jcycles)
             if not why:
-                why = O.judge_weight(n, es, cycles, ret, self.opts[key]) if isinstance(ret, int) else "returned value %s is not an exact integer multiple of the weight unit" % ret
+                why = O.judge_weight(jn, jes, jcycles, ret, self.opts[key]) if isinstance(ret, int) else "returned value %s is not an exact integer multiple of the weight unit" % ret
             differ = any(f.get("EORD") != rf[0].get("EORD") for f in rf)
             if differ: self.stats["eord_differ"] += 1
             parsed[i] = (alg, g, res, rf, why, differ)
-            if alg == "signed" and exact:
+            if alg == "signed" and exact and not model_feasible(line, g):
+                if why: self.report("judge", "mcb_sva_signed_mpi with %d ranks: %s" % (P, why), replay_of(i, {"rank_lines": res, "judge_only": True}))
+                self.stats["signed_judged_only_size"] = self.stats.get("signed_judged_only_size", 0) + 1
+            elif alg == "signed" and exact:
                 todo_fixed.append(i)
             elif alg == "signed" and why:
                 # several TBB threads: which of several equally light cycles a phase keeps depends on the schedule, so the
@@ -545,8 +629,8 @@ class Judge:
             import trees_common
             tl, tio, torig = [], [], []
             for i, (alg, g, res, rf, why, differ) in sorted(parsed.items()):
-                if alg != "signed" and not why:
-                    t = lines[i].split()
+                if alg != "signed" and not why and g[0] <= CORE_N:
+                    t = toks(lines[i])
                     tl.append("A %s %s %s %s" % (alg[:3], t[1], t[2], gen.graph_tokens(g))); tio.append(res[0]); torig.append("P=%d %s" % (P, lines[i]))
             if tl:
                 with self.lock:
@@ -644,7 +728,9 @@ def check(tier, seed):
     Ps = [1, 2, 3, 5] if tier == "quick" else [1, 2, 3, 4, 5, 6, 7, 8, 13]
     c.rule = ("(entry point in {signed, fvs_trees, fvs_trees_tbb, iso_trees, iso_trees_tbb}_mpi) x (P in %s) x (double|int weights) x (per-rank heap perturbation seed) x graph: "
               "tiny graphs with fewer vertices / candidates / signed edges than ranks (incl. empty, edgeless, forests), dense small graphs (hidden-edge branch 1 < |S| < n and all-vertices branch), "
-              "structured families and random graphs with unit/ties/wide/pow2 weights; many cases per MPI job (heaps drift apart between ranks); distinct by md5 of (P, case); "
+              "structured families and random graphs with unit/ties/wide/pow2 weights; the same entry points with long long weights above 2^53 (2^53+r, 2^54+{0..3}, 2^54+permutation, 2^b+r up to b = 60, "
+              "heavy/light mixes; (m+4)*sum(w) < 2^63); in MPI jobs of their own (P = 2, 3): 257..400 vertices, K45 + pendants on 320 vertices (all-vertices branch), stars with 66009 vertices whose hub and "
+              "cycle-carrying leaves have indices >= 65536 and < 256 (signed, fvs_trees[_tbb]; judged through the 2-core); many cases per MPI job (heaps drift apart between ranks); distinct by md5 of (P, case); "
               "non-trivial = cycle space dimension >= 2") % Ps
     c.step_prove()
     ok = c.step_model(GROUP)
@@ -660,10 +746,17 @@ def check(tier, seed):
         batches = []
         cases = []
         for l in corpus:
-            t = l.split(); n, es, _ = lib.parse_graph_tokens(t, 4); cases.append((l, (n, es), "corpus"))
+            t = toks(l); n, es, _ = lib.parse_graph_tokens(t, 4); cases.append((l, (n, es), "corpus"))
         cases += gen_cases(c.rng, tier)          # the same cases for every P: the answers must not depend on P either
+        c64 = gen_cases64(random.Random(seed * 7919 + 404), tier)      # long long weights above 2^53 (own stream: the double / int stream is unchanged)
+        cases += c64
+        c.extra["cases_64bit_weights"] = len(c64)
         for P in Ps:
             batches.append((P, cases, "%s_P%d" % (tier, P), 1))
+        for P in (2, 3):                         # sizes beyond narrow index types: MPI jobs of their own
+            sz = size_cases(random.Random(seed * 7919 + 405 + P), tier, P)
+            batches.append((P, sz, "%s_P%d_size" % (tier, P), 1))
+            c.extra.setdefault("size_cases", {})["P=%d" % P] = {"n>255": sum(1 for x in sz if 255 < x[1][0] <= 65535), "n>65535 (judged only)": sum(1 for x in sz if x[1][0] > 65535)}
         if tier == "thorough":      # real TBB with several worker threads inside every rank (tbb variants and the signed variant's local reduce)
             extra = gen_cases(c.rng, "quick")
             for P in (2, 5):
@@ -682,7 +775,7 @@ def check(tier, seed):
                 for _ in range(need): sem.release()
             J.judge_batch(P, cases, res, tier, exact=(threads == 1), traces=traces)      # several TBB threads: schedule-dependent ties, judged only
         with cf.ThreadPoolExecutor(max_workers=6) as ex:
-            list(ex.map(work, sorted(batches, key=lambda b: -b[0])))
+            list(ex.map(work, sorted(batches, key=lambda b: (-b[0], b[2]))))
         c.extra.update(J.stats)
         if J.stats["known_d8"]:
             c.notes.append("D8 (known finding) hit %d times; %d further layout-dependent answers that happened to be minimum bases" % (J.stats["known_d8"], J.stats["latent_d8"]))
@@ -698,7 +791,7 @@ def check(tier, seed):
                      "stride: ceil((double) total / P) equals the integer ceiling for total < 2^53",
                      "per-rank BFS root order and pointer order of edge descriptors are recovered from the run (ROOTS equal on all ranks is checked, EORD per rank is fed to the as-found model)",
                      "local tbb::parallel_reduce runs on one TBB thread in the exact comparison (= left-to-right fold); C04c is modulo the per-index search premise (MpiProofs3.signed_phase_premise)",
-                     "double weights are integer multiples of a power of two, sums below 2^53 (exact domain)",
+                     "double weights are integer multiples of a power of two, sums below 2^53; int weights with (m+4)*sum < 2^31, long long weights with (m+4)*sum < 2^63 (exact domain)",
                      "tree variants: every rank's ForestIndex is the same (ROOTS equal on all ranks is checked); std::sort's order among equal recorded weights is recovered per rank from the hook's SORTED line and "
                      "validated by MpiTreesModel.mt_sort_Z (a permutation, no later element strictly lighter); greedy_fvs's pick oracle is recovered by running the real greedy_fvs (harness/c13.cpp)",
                      "tree variants, TBB flavour: tbb::parallel_reduce is not modelled schedule by schedule here; C04c_result_*_tbb_mpi hold for every local lookup accepted by mt_rank_accept_tbb_Z and every reported "
@@ -726,7 +819,7 @@ def replay(path):
     traces = {}
     res = run_batch(exe, P, batch, "replay", 240, traces=traces)
     last = res[idx]
-    print("P:", P); print("case:", batch[idx])
+    print("P:", P); print("case:", batch[idx][:3000])
     bad = None
     if isinstance(last, tuple):
         bad = "%s: %s" % (last[0], last[1])
@@ -736,19 +829,25 @@ def replay(path):
         if got != m.replace("REDTREE ", "").replace(" OK", "").strip(): bad = "reduction tree differs"
     else:
         for l in last: print("rank:", l[:300])
-        t = batch[idx].split(); n, es, _ = lib.parse_graph_tokens(t, 4)
+        t = toks(batch[idx]); n, es, _ = lib.parse_graph_tokens(t, 4)
+        feasible = model_feasible(batch[idx], (n, es))
         rf = [lib.fields(l, KEYS) for l in last]
         try:
             ret, cycles = O.parse_alg_output(last[0])
-            bad = O.judge_basis(n, es, cycles) or (O.judge_weight(n, es, cycles, ret) if isinstance(ret, int) else "non-integer weight")
+            jn, jes, jcycles = n, es, cycles
+            if n > CORE_N:
+                red = reduce_to_core(n, es, cycles)
+                if isinstance(red, str): bad = red
+                else: jn, jes, jcycles = red
+            bad = bad or O.judge_basis(jn, jes, jcycles) or (O.judge_weight(jn, jes, jcycles, ret) if isinstance(ret, int) else "non-integer weight")
         except Exception:
             bad = "no answer on rank 0"
         if not bad and any(f.get("RANK", [0, 0, "x"])[2] != "0" for f in rf[1:]): bad = "a rank other than 0 emitted cycles"
-        if t[0] != "signed" and not bad and traces.get(idx) and any(traces[idx]):
+        if t[0] != "signed" and not bad and traces.get(idx) and any(traces[idx]) and per_rank_feasible(t[0], (n, es), "thorough"):
             # per-rank comparison with MpiTreesModel (hook lines present)
             import trees_common
             scale = int(t[2]) if t[1] == "D" else 0
-            hooks = [parse_hook(x, scale) for x in traces[idx]]
+            hooks = [parse_hook(x, scale, integral=(t[1] != "D")) for x in traces[idx]]
             picks = []
             if t[0].startswith("fvs"):
                 exe13, _ = lib.build_cpp(name="c13", srcs=["c13.cpp"])
@@ -762,7 +861,7 @@ def replay(path):
                     for l in x: print("hook[%d]:" % rk, l[:200])
                 print("model(treesmpi):", mo[:1500])
                 bad = compare_trees(t[0], P, hooks, parse_trees_model(mo), ret, cycles)
-        if t[0] == "signed" and not bad:
+        if t[0] == "signed" and not bad and feasible:
             fx, og = model_lines(" ".join(t[4:]), rf, P)
             m = lib.run_model("signedmpi_fixed", [fx], par=1, group=GROUP)[0]; print("model(fixed):", m)
             if m.strip() != X.canon_alg(last[0]) + " OTHERS 0": bad = "differs from the fixed model"
